@@ -35,7 +35,7 @@ _RANGES = {}
 
 def ranges(name):
     if name not in _RANGES:
-        _RANGES[name] = {'alpha': lambda: _cls(str.isalpha), 'alnum': lambda: _cls(str.isalnum), 'digit': lambda: _cls(str.isdigit),
+        _RANGES[name] = {'alpha': lambda: _cls(str.isalpha), 'alnum': lambda: _cls(str.isalnum), 'digit': lambda: _cls(str.isdigit), 'decimal': lambda: _cls(str.isdecimal),
                          'upper_changes': lambda: _cls(lambda ch: ch.upper() != ch), 'lower_changes': lambda: _cls(lambda ch: ch.lower() != ch)}[name]()
     return _RANGES[name]
 
